@@ -1,9 +1,10 @@
 (* C03 - Client transmits exactly the protocol encoding of a request, or nothing.
    Only statements, closed by `exact`, each followed by Print Assumptions.
 
-   `call` is one Channel API call with its arguments (start/count as given to
-   AddressRange::try_from, the value vector as given to WriteMultiple::from); `call_wf` says the
-   arguments have their Rust types (u16). `client_submit f tx uid c` is the model of construction
+   `call` is one Channel API call with its arguments (for reads the raw public fields start/count
+   of the AddressRange handed to Channel::read_* - ANY pair in u16 x u16, whether or not it went
+   through AddressRange::try_from -; the value vector as given to WriteMultiple::from); `call_wf`
+   says the arguments have their Rust types (u16). `client_submit f tx uid c` is the model of construction
    + Channel method + FrameWriter::format_request into the shared 260-byte buffer;
    `submit_wire` is what execute_request hands to the transport. `ref_encode` / `within_limits`
    are the oracle of Spec/ClientCodecSpec.v. Value vectors are unbounded lists. *)
@@ -91,13 +92,13 @@ Proof. vm_compute. reflexivity. Qed.
 Example C03_example_over_limit :
   client_submit Tcp 0 1 (CWriteMultipleCoils 0 (repeat true 1969)) = Err ECountTooBigForType.
 Proof. vm_compute. reflexivity. Qed.
-(* The rejection of empty / overflowing ranges rests on AddressRange::try_from at construction: a
-   request whose range was NOT validated (AddressRange has public fields) is encoded and sent.
-   Outside the quantifier of the theorems above (`call` goes through try_from); replayed on the
-   implementation by the check as an observation (evidence: unvalidated_range_literal_probe). *)
-Example C03_unvalidated_empty_range_is_sent :
-  client_encode Tcp 0 1 (RReadCoils (0, 0)) = Ok [0;0; 0;0; 0;6; 1; 1; 0;0; 0;0].
-Proof. vm_compute. reflexivity. Qed.
-Example C03_unvalidated_overflowing_range_is_sent :
-  client_encode Tcp 1 1 (RReadHoldingRegisters (65535, 10)) = Ok [0;1; 0;0; 0;6; 1; 3; 255;255; 0;10].
-Proof. vm_compute. reflexivity. Qed.
+(* AddressRange has public fields, so Channel::read_* can be handed ANY (start, count) pair. The
+   repaired limited_count (3d39d18, finding F10) validates it: an empty or overflowing range is
+   rejected before anything is queued - these are instances of C03_limits. *)
+Example C03_empty_range_literal_is_rejected :
+  client_submit Tcp 0 1 (CReadCoils 0 0) = Err ECountOfZero /\ submit_wire Tcp 0 1 (CReadCoils 0 0) = [].
+Proof. vm_compute. split; reflexivity. Qed.
+Example C03_overflowing_range_literal_is_rejected :
+  client_submit Tcp 1 1 (CReadHoldingRegisters 65535 10) = Err EAddressOverflow
+  /\ submit_wire Rtu 1 1 (CReadHoldingRegisters 65535 10) = [].
+Proof. vm_compute. split; reflexivity. Qed.
